@@ -432,7 +432,7 @@ def run(ctx: Ctx) -> None:
 MUTANTS = [
     ("upload-unlinks-first", POOL, "            os.makedirs(os.path.dirname(pool_path), exist_ok=True)\n            shutil.copy(cache_path, pool_path)", "            os.makedirs(os.path.dirname(pool_path), exist_ok=True)\n            if os.path.lexists(pool_path):\n                os.unlink(pool_path)\n            shutil.copy(cache_path, pool_path)", "2w"),
     ("lock-owner-trace", POOL, "        try:\n            yield fd\n        finally:\n            fcntl.lockf(fd, fcntl.LOCK_UN)", "        with open(lockfile, \"w\") as trace:\n            trace.write(\"owner\")\n        try:\n            yield fd\n        finally:\n            fcntl.lockf(fd, fcntl.LOCK_UN)", "5c"),
-    ("P-lock-flag-instead-of-for-else", POOL, '        for _ in range(timeout):\n            try:\n                fcntl.lockf(fd, fcntl.LOCK_EX | fcntl.LOCK_NB)\n            except IOError as error:\n                # block here but still support a finite timeout\n                if error.errno != errno.EACCES and error.errno != errno.EAGAIN:\n                    raise\n            else:\n                break\n            logging.debug("Waiting for image to become available")\n            time.sleep(1)\n        else:\n', '        lock_acquired = False\n        for _ in range(timeout):\n            try:\n                fcntl.lockf(fd, fcntl.LOCK_EX | fcntl.LOCK_NB)\n            except IOError as error:\n                # block here but still support a finite timeout\n                if error.errno != errno.EACCES and error.errno != errno.EAGAIN:\n                    raise\n            if not lock_acquired:\n                lock_acquired = True\n                break\n            logging.debug("Waiting for image to become available")\n            time.sleep(1)\n        if not lock_acquired:\n', None),
+    ("P-lock-flag-instead-of-for-else", POOL, '        for _ in range(timeout):\n            try:\n                fcntl.lockf(fd, fcntl.LOCK_EX | fcntl.LOCK_NB)\n            except IOError as error:\n                # block here but still support a finite timeout\n                if error.errno != errno.EACCES and error.errno != errno.EAGAIN:\n                    raise\n            else:\n                break\n            logging.debug("Waiting for image to become available")\n            time.sleep(1)\n        else:\n', '        lock_acquired = False\n        for _ in range(timeout):\n            try:\n                fcntl.lockf(fd, fcntl.LOCK_EX | fcntl.LOCK_NB)\n            except IOError as error:\n                # block here but still support a finite timeout\n                if error.errno != errno.EACCES and error.errno != errno.EAGAIN:\n                    raise\n            else:\n                lock_acquired = True\n                break\n            logging.debug("Waiting for image to become available")\n            time.sleep(1)\n        if not lock_acquired:\n', None),
     ("lock-timeout-other-key", POOL, "        update_timeout = params.get_numeric(\"update_pool_timeout\", 300)\n        with image_lock(pool_path, update_timeout) as lock:\n            os.unlink(pool_path)",
      "        update_timeout = params.get_numeric(\"pool_timeout\", 300)\n        with image_lock(pool_path, update_timeout) as lock:\n            os.unlink(pool_path)", "8t"),
     ("upload-link-swapped", POOL, "            TransferOps.upload_local(cache_path, pool_path, params)", "            TransferOps.upload_local(pool_path, cache_path, params)", "8g"),
